@@ -19,6 +19,7 @@ import (
 	cidprimary "github.com/ipld/go-storethehash/store/primary/cid"
 	mhprimary "github.com/ipld/go-storethehash/store/primary/multihash"
 	"github.com/ipld/go-storethehash/store/types"
+	"github.com/ipld/go-storethehash/store/vhook"
 )
 
 var log = logging.Logger("storethehash")
@@ -145,6 +146,7 @@ func translateIndex(ctx context.Context, indexPath string, primary primary.Prima
 	defer oldIndex.Close()
 
 	indexDir := filepath.Dir(indexPath)
+	vhook.At("store.translate.before-mkdir-new")
 	indexTmp, err := os.MkdirTemp(indexDir, "new_index")
 	if err != nil {
 		return err
@@ -159,6 +161,7 @@ func translateIndex(ctx context.Context, indexPath string, primary primary.Prima
 	}
 	defer newIndex.Close()
 
+	vhook.At("store.translate.new-opened")
 	iter := oldIndex.NewIterator()
 	ticker := time.NewTicker(progressLogInterval)
 	defer ticker.Stop()
@@ -194,32 +197,39 @@ func translateIndex(ctx context.Context, indexPath string, primary primary.Prima
 	log.Infof("Translated %d index records", count)
 
 	log.Info("Replacing old index files with new")
+	vhook.At("store.translate.before-close-new")
 	if err = newIndex.Close(); err != nil {
 		return fmt.Errorf("error closing new index: %w", err)
 	}
+	vhook.At("store.translate.before-close-old")
 	if err = oldIndex.Close(); err != nil {
 		return fmt.Errorf("error closing old index: %w", err)
 	}
 
 	// Create a temp directory for the old index files and move them there.
+	vhook.At("store.translate.before-mkdir-old")
 	oldTmp, err := os.MkdirTemp(indexDir, "old_index")
 	if err != nil {
 		return err
 	}
+	vhook.At("store.translate.before-move-old")
 	if err = index.MoveFiles(indexPath, oldTmp); err != nil {
 		return fmt.Errorf("cannot move old index files: %w", err)
 	}
 
 	// Move the new index file from the temp directory to the index directory.
+	vhook.At("store.translate.before-move-new")
 	if err = index.MoveFiles(newIndexPath, indexDir); err != nil {
 		return fmt.Errorf("cannot move new index files: %w", err)
 	}
 
 	// Remove the old index files.
+	vhook.At("store.translate.before-remove-old")
 	if err = os.RemoveAll(oldTmp); err != nil {
 		return fmt.Errorf("cannot remove old index files: %w", err)
 	}
 
+	vhook.At("store.translate.done")
 	log.Infof("Finished translating index to %d bit prefix", indexSizeBits)
 	return nil
 }
@@ -249,6 +259,7 @@ func (s *Store) run() {
 	for {
 		select {
 		case <-s.flushNow:
+			vhook.At("store.run.flushnow")
 			if err := s.Flush(); err != nil {
 				s.setErr(err)
 			}
@@ -273,6 +284,7 @@ func (s *Store) run() {
 // freelist. This flushes any outstanding work and buffered data to their
 // files.
 func (s *Store) Close() error {
+	vhook.At("store.close.entry")
 	s.stateLk.Lock()
 	if !s.open {
 		s.stateLk.Unlock()
@@ -289,20 +301,24 @@ func (s *Store) Close() error {
 		<-s.closed
 	}
 
+	vhook.At("store.close.run-stopped")
 	cerr := s.Err()
 
 	err := s.index.Close()
 	if err != nil {
 		cerr = err
 	}
+	vhook.At("store.close.after-index")
 	if err = s.index.Primary.Close(); err != nil {
 		cerr = err
 	}
+	vhook.At("store.close.after-primary")
 	s.fileCache.Clear()
 	if err = s.freelist.Close(); err != nil {
 		cerr = err
 	}
 
+	vhook.At("store.close.before-return")
 	return cerr
 }
 
@@ -317,6 +333,7 @@ func (s *Store) Get(key []byte) ([]byte, bool, error) {
 		return nil, false, err
 	}
 	fileOffset, found, err := s.index.Get(indexKey)
+	vhook.At("store.get.after-lookup")
 	if err != nil {
 		return nil, false, err
 	}
@@ -360,6 +377,7 @@ func (s *Store) Put(key []byte, value []byte) error {
 	}
 	// See if the key already exists and get offset
 	prevOffset, found, err := s.index.Get(indexKey)
+	vhook.At("store.put.after-lookup")
 	if err != nil {
 		return err
 	}
@@ -397,6 +415,7 @@ func (s *Store) Put(key []byte, value []byte) error {
 	// the key, not the indexKey. The storage knows how to manage the key
 	// under the hood while the index is primary storage-agnostic.
 	fileOffset, err := s.index.Primary.Put(key, value)
+	vhook.At("store.put.after-primary")
 	if err != nil {
 		return err
 	}
@@ -414,12 +433,14 @@ func (s *Store) Put(key []byte, value []byte) error {
 		if err = s.index.Update(indexKey, fileOffset); err != nil {
 			return err
 		}
+		vhook.At("store.put.after-update")
 		// Add outdated data in primary storage to freelist
 		if err = s.freelist.Put(prevOffset); err != nil {
 			return err
 		}
 	}
 
+	vhook.At("store.put.before-tick")
 	s.flushTick()
 
 	return nil
@@ -438,6 +459,7 @@ func (s *Store) Remove(key []byte) (bool, error) {
 	}
 	// See if the key already exists and get offset
 	offset, found, err := s.index.Get(indexKey)
+	vhook.At("store.remove.after-lookup")
 	if err != nil {
 		return false, err
 	}
@@ -460,6 +482,7 @@ func (s *Store) Remove(key []byte) (bool, error) {
 	}
 
 	removed, err := s.index.Remove(storedKey)
+	vhook.At("store.remove.after-index")
 	if err != nil {
 		return false, err
 	}
@@ -471,6 +494,7 @@ func (s *Store) Remove(key []byte) (bool, error) {
 		}
 	}
 
+	vhook.At("store.remove.before-tick")
 	s.flushTick()
 	return removed, nil
 }
@@ -551,6 +575,7 @@ func (s *Store) flushTick() {
 	// to come in and be stored in memory faster that flushes could handle it,
 	// leading to memory exhaustion.
 	if inRate > flushRate {
+		vhook.At("store.flushtick.decided")
 		// Get a channel that broadcasts next flush completion.
 		s.rateLk.Lock()
 		if s.flushNotice == nil {
@@ -558,6 +583,7 @@ func (s *Store) flushTick() {
 		}
 		flushNotice := s.flushNotice
 		s.rateLk.Unlock()
+		vhook.AtV("store.flushtick.registered", flushNotice)
 
 		// Trigger flush now, non-blocking.
 		select {
@@ -569,7 +595,9 @@ func (s *Store) flushTick() {
 		}
 
 		// Wait for next flush to complete.
+		vhook.At("store.flushtick.before-block")
 		<-flushNotice
+		vhook.At("store.flushtick.released")
 	}
 }
 
@@ -578,14 +606,17 @@ func (s *Store) commit() (types.Work, error) {
 	if err != nil {
 		return 0, err
 	}
+	vhook.At("store.commit.after-primary")
 	indexWork, err := s.index.Flush()
 	if err != nil {
 		return 0, err
 	}
+	vhook.At("store.commit.after-index")
 	flWork, err := s.freelist.Flush()
 	if err != nil {
 		return 0, err
 	}
+	vhook.At("store.commit.after-freelist")
 	if s.syncOnFlush {
 		// finalize disk writes
 		if err = s.index.Primary.Sync(); err != nil {
@@ -608,6 +639,7 @@ func (s *Store) outstandingWork() bool {
 // Flush writes outstanding work and buffered data to the primary, index, and
 // freelist files. It then syncs these files to permanent storage.
 func (s *Store) Flush() error {
+	vhook.At("store.flush.entry")
 	lastFlush := time.Now()
 
 	s.rateLk.Lock()
@@ -615,14 +647,17 @@ func (s *Store) Flush() error {
 	s.rateLk.Unlock()
 
 	if !s.outstandingWork() {
+		vhook.At("store.flush.no-work")
 		return nil
 	}
 
+	vhook.At("store.flush.before-commit")
 	work, err := s.commit()
 	if err != nil {
 		return err
 	}
 
+	vhook.At("store.flush.after-commit")
 	var rate float64
 	if work > types.Work(s.burstRate) {
 		now := time.Now()
@@ -639,6 +674,7 @@ func (s *Store) Flush() error {
 		s.flushNotice = nil
 	}
 	s.rateLk.Unlock()
+	vhook.At("store.flush.notice-closed")
 
 	return nil
 }
@@ -653,6 +689,7 @@ func (s *Store) Has(key []byte) (bool, error) {
 		return false, err
 	}
 	blk, found, err := s.index.Get(indexKey)
+	vhook.At("store.has.after-lookup")
 	if !found || err != nil {
 		return false, err
 	}
@@ -674,6 +711,7 @@ func (s *Store) GetSize(key []byte) (types.Size, bool, error) {
 		return 0, false, err
 	}
 	blk, found, err := s.index.Get(indexKey)
+	vhook.At("store.getsize.after-lookup")
 	if err != nil {
 		return 0, false, err
 	}
